@@ -7,6 +7,7 @@ import Peppi.C03
 import Peppi.Premises
 import Peppi.PremisesCore
 import Peppi.PremisesSchema
+import Peppi.Lemmas.Wrapped
 set_option linter.unusedVariables false
 namespace Peppi.Props.C03
 
@@ -181,6 +182,17 @@ theorem schema_Velocities : schemaMatchesJson Velocities.views Velocities.frames
 open Extracted in
 theorem schema_Velocity : schemaMatchesJson Velocity.views Velocity.framesJson = true :=
   _root_.Peppi.schema_Velocity 
+
+/- from `Peppi.Lemmas.Wrapped` -/
+open Extracted in
+theorem parseEvent_wrapped (ps : ParseState) (c : Nat) (p pad rest : Bytes) (st' : PState)
+    (hc : isFrameEv c = true) (h512 : (p ++ pad).length = 512)
+    (hsz : sizeOfEv ps.st.sizes EV_SPLITTER = some 516) (hraw : ps.st.splitRaw = [])
+    (hact : ps.st.splitActual + p.length < 2 ^ 32)
+    (hplain : handleEvent { ps.st with splitActual := ps.st.splitActual + p.length } c p = .ok st') :
+    parseEvent ps (encEvent (EV_SPLITTER, splitPayloadC (p ++ pad) p.length true c) ++ rest) =
+      .ok ((c, { st := st', bytesRead := ps.bytesRead + 516 + 1 }), rest) :=
+  _root_.Peppi.parseEvent_wrapped ps c p pad rest st' hc h512 hsz hraw hact hplain
 
 /-- C03 for the Pre event: the row decoded by the *extracted* `read_push` table of the current source,
     on any payload of any version, has at spec position `k` the big-endian value found at the
